@@ -201,6 +201,12 @@ def gen_history(u, rng, n_commits=6, t0=1700000000, salt=b"", paths=None,
         if gitlinks and rng.random() < 0.1:
             files[b"sub"] = (0o160000, hashlib.sha1(b"sub%d" % i).hexdigest()
                              .encode())
+        elif gitlinks and commits and rng.random() < 0.15:
+            # a submodule entry that pins a commit which also exists in this
+            # very repository (another branch, a disjoint root): it is not
+            # part of this tree's closure, but it is a real object someone
+            # may want
+            files[b"sub-own"] = (0o160000, rng.choice(commits))
         if not files:
             files[paths[0]] = (0o100644, new_blob())
         tid = mk_tree(files)
